@@ -26,6 +26,11 @@ theorem gasService_surface : gasServiceSurface.map sig = gasServiceExpected := b
 
 theorem gasService_storage_no_alias : noAlias gasServiceStorage = true ∧ keysNodup gasServiceStorage = true := by decide
 
+/-- the storage mappers of the contract are exactly the fields the model's state has (a mapper the model does not know
+    is state the theorems do not cover; the harness emulates its absence on contracts deployed by earlier code: `wipe`) -/
+theorem gasService_storage_keys : gasServiceStorage.map (·.key) = ["gas_collector"] := by decide
+
+
 end Axelar.Surface
 
 namespace Axelar.Surface
